@@ -23,6 +23,7 @@ EXPLANATION = (
     "(C04.DEFAULTS); Force.compute sets layerIndex for every node of every layer and retains the layering "
     "(C04.LAYERIDX, C04.REPORTED) after removing stale stubs from every label (C06.RESET)."
     "  Also part of this check: each engine's distributor has private options (GEN.OPTS-MERGE) and the layer width is maxPos - minPos as Force.set_options derives it (C03.LAYERWIDTH)."
+    '  C04.CONSERVE-INSTANCES: algorithm_overlap run by the evaluator on five concrete instances (every loop test folds): each label in exactly one layer, no empty layer; the structural all-n rule C04.CONSERVE is soft for a spelling it does not recognise when these pass.'
 )
 ASSUMPTIONS = ["density in (0,1], spacing and stub width >= 0 (property domain)"]
 
